@@ -73,7 +73,22 @@ def cmp_eq(acc, tag, text, text2, envs, r1, r2, what):
     return True
 
 
+_IDS_T = []
+
+
+def ids_for(tier):
+    """thorough: plus every string of length <= 3 over the hostile alphabet of mc/deepvals.py and every int in [-300, 300]"""
+    if tier != "thorough":
+        return IDS
+    if not _IDS_T:
+        from .. import deepvals
+
+        _IDS_T.extend(IDS + [x for x in deepvals.family("str3", 0) if x not in IDS] + [i for i in range(-300, 301) if i not in IDS])
+    return _IDS_T
+
+
 def check_base(acc, tag, ast, tier):
+    IDS = ids_for(tier)  # noqa: N806
     _, name, salt, split, c = ast
     text = rp.render(ast)
     b = impl.build(text)
